@@ -22,6 +22,7 @@ pub mod c16;
 pub mod c17;
 pub mod c18;
 pub mod c19;
+pub mod c20;
 
 pub struct Check {
     pub id: &'static str,
@@ -33,7 +34,7 @@ pub struct Check {
 }
 
 pub fn all() -> Vec<Check> {
-    vec![c01::CHECK, c02::CHECK, c03::CHECK, c04::CHECK, c05::CHECK, c06::CHECK, c07::CHECK, c08::CHECK, c09::CHECK, c10::CHECK, c11::CHECK, c12::CHECK, c13::CHECK, c14::CHECK, c15::CHECK, c16::CHECK, c17::CHECK, c18::CHECK, c19::CHECK]
+    vec![c01::CHECK, c02::CHECK, c03::CHECK, c04::CHECK, c05::CHECK, c06::CHECK, c07::CHECK, c08::CHECK, c09::CHECK, c10::CHECK, c11::CHECK, c12::CHECK, c13::CHECK, c14::CHECK, c15::CHECK, c16::CHECK, c17::CHECK, c18::CHECK, c19::CHECK, c20::CHECK]
 }
 
 /// entry point of worker subprocesses (C08, C18, C20)
@@ -42,6 +43,7 @@ pub fn worker_main(args: &[String]) -> i32 {
         Some("c07") => c07::worker(&args[1..]),
         Some("c08") => c08::worker(&args[1..]),
         Some("c15") => c15::worker(&args[1..]),
+        Some("c20") => c20::worker(&args[1..]),
         _ => 2,
     }
 }
